@@ -133,6 +133,11 @@ def harness(ctx, case):
         out['sample'] = {'case': case['name'], 'failed': True, 'creates': creates}
         return out
     # successful build
+    keeps = [e for e in ctx.events if e[0] == 'open-keep']
+    out['asserts'] += 1
+    if keeps:
+        report('artifact-not-truncated', 'the artifact %s is opened for writing without truncation (%s): bytes of an earlier, longer artifact survive behind the new output' % (keeps[0][1], keeps[0][2]))
+        return out
     want = [] if case['outs'] == 0 else [artifact_name(src, EXT[case['fmt']])]
     out['asserts'] += 2
     if creates != want:
@@ -169,6 +174,18 @@ def judge(fw, v):
             fw.replayed += 1
             v['native'] = {'rc': r['rc'], 'artifacts': made}
             return made != sorted(v.get('want') or [])
+        if v['kind'] == 'artifact-not-truncated':
+            # build into an empty directory, then again over a much longer earlier artifact: same bytes expected
+            r0 = fw.native().cli(['build', srcname], d)
+            made = [f for f in os.listdir(d) if f != srcname and os.path.isfile(os.path.join(d, f))]
+            clean = {f: open(os.path.join(d, f), 'rb').read() for f in made}
+            for f in made:
+                open(os.path.join(d, f), 'wb').write(b'X' * 4096)
+            r = fw.native().cli(['build', srcname], d)
+            again = {f: open(os.path.join(d, f), 'rb').read() for f in made}
+            fw.replayed += 1
+            v['native'] = {'rc': r['rc'], 'sizes_clean': {f: len(x) for f, x in clean.items()}, 'sizes_over_longer': {f: len(x) for f, x in again.items()}}
+            return r0['rc'] == 0 and r['rc'] == 0 and clean != again
         pre = {}
         for ext in ('txt', 'env', 'sh', 'json', 'toml', 'yaml', 'xml'):
             p = os.path.join(d, 'conf.' + ext)
